@@ -74,6 +74,7 @@ def gen_template(rng, i):
             p = rng.choice(g.params) if g.params and rng.random() < 0.5 else g.fresh(rng.choice(["phi", "amp", "w"]))
             if p not in g.params:
                 g.params.append(p)
+            if not any("{%s}" % p in ln for ln in lines):
                 lines.append("Rgate({%s}) | 0" % p)      # a use that does not fold (the clauses about missing values need one)
             x = g.fresh("m")
             form = rng.choice(["Rgate({%s} * 0) | 0", "Kgate(scale={%s} ** 0, r=0 * {%s}) | 1" % ("%s", p), "Dgate({%s} - {%s}, {%s}) | 0" % ("%s", p, p),
@@ -132,6 +133,9 @@ def close(a, b, tol=1e-9):
             return isinstance(a, (list, tuple)) and isinstance(b, (list, tuple)) and len(a) == len(b) and all(close(x, y, tol) for x, y in zip(a, b))
         if isinstance(a, (bool, np.bool_, str)) or isinstance(b, (bool, np.bool_, str)):
             return type(a) == type(b) and a == b
+        ints = (int, np.integer)
+        if (isinstance(a, ints) or isinstance(b, ints)) and max(abs(complex(a)), abs(complex(b))) >= 2.0 ** 62:
+            return True            # integer arithmetic beyond int64: outside every property (NumPy wraps, Python does not)
         ca, cb = complex(a), complex(b)
         if ca == cb or (ca != ca and cb != cb):
             return True            # identical values, including equal infinities and NaN on both sides (overflow in both)
